@@ -841,6 +841,16 @@ impl TypeChecker {
             }
             E::Call { function, args, span } => {
                 let (ret, function) = self.expression(function, ctx)?;
+                // A callee that is not known yet is a function of this many arguments - like
+                // every other use of a type that is not known yet, the call is a requirement
+                // on what it turns out to be. In a pure function it has to be pure as well.
+                if matches!(self.find_type(function), Type::Unknown) {
+                    let params = args.iter().map(|_| self.push_type(Type::Unknown)).collect();
+                    let ret_ty = self.push_type(Type::Unknown);
+                    let purity = if ctx.inside_pure { Purity::Pure } else { Purity::Undefined };
+                    let called = self.push_type(Type::Function(params, ret_ty, purity));
+                    self.unify(*span, ctx, function, called)?;
+                }
                 match self.find_type(function) {
                     Type::Function(params, ret_ty, purity) => {
                         if args.len() != params.len() {
@@ -874,12 +884,6 @@ impl TypeChecker {
 
                         with_ret(ret, ret_ty)
                     }
-                    Type::Unknown => err_type_error!(
-                        self,
-                        *span,
-                        TypeError::Violating(self.bake_type(function)),
-                        "Unknown types cannot be called"
-                    ),
                     _ => err_type_error!(
                         self,
                         *span,
